@@ -482,7 +482,7 @@ fn sized_vec(len: usize, b: &[u8; BMAX]) -> Vec<u8> {
 }
 /// image: record A (used, the one rewritten / or a used bystander when a new record is added),
 /// slot B (free or used), record C (used neighbour at the end).  One real write_piece.
-fn val_write(is_new: bool, b_is_free: bool) {
+fn val_write(is_new: bool, b_is_free: bool, with_c: bool) {
     set_key_file(false);
     let mut f = VarFile::model(vp::piece_mgr());
     let sa = any_slot_size();
@@ -494,7 +494,7 @@ fn val_write(is_new: bool, b_is_free: bool) {
     let oa = 192u64;
     let ob = oa + sa as u64;
     let oc = ob + sb as u64;
-    let e0 = oc + sc as u64;
+    let e0 = if with_c { oc + sc as u64 } else { oc };
     f.slots[0] = used_val(oa, sa, la, kani::any());
     let b_free: bool = b_is_free;
     f.slots[1] = if b_free {
@@ -504,7 +504,9 @@ fn val_write(is_new: bool, b_is_free: bool) {
         kani::assume(l <= 1300);
         used_val(ob, sb, l, kani::any())
     };
-    f.slots[2] = used_val(oc, sc, lc, kani::any());
+    if with_c {
+        f.slots[2] = used_val(oc, sc, lc, kani::any());
+    }
     if b_free {
         f.hdr[head_word(false, sb)] = ob;
     }
@@ -551,15 +553,17 @@ fn val_write(is_new: bool, b_is_free: bool) {
             assert!(o.live && o.body == 2 && o.size * 8 == sa as u64, "the old slot of a moved record was not put on its free list with its own size");
         }
         // bystanders untouched
-        let c = slot_at(f, oc);
-        assert!(c.nf == keep_c.nf && c.size == keep_c.size && c.len == keep_c.len && c.blen == keep_c.blen && c.bytes[0] == keep_c.bytes[0] && c.bytes[1] == keep_c.bytes[1] && c.bytes[2] == keep_c.bytes[2], "neighbour record modified");
+        if with_c {
+            let c = slot_at(f, oc);
+            assert!(c.nf == keep_c.nf && c.size == keep_c.size && c.len == keep_c.len && c.blen == keep_c.blen && c.bytes[0] == keep_c.bytes[0] && c.bytes[1] == keep_c.bytes[1] && c.bytes[2] == keep_c.bytes[2], "neighbour record modified");
+        }
         if is_new {
             let a = slot_at(f, oa);
             assert!(a.nf == keep_a.nf && a.size == keep_a.size && a.len == keep_a.len && a.bytes[0] == keep_a.bytes[0], "bystander record modified");
         }
         if off != ob {
             let b = slot_at(f, ob);
-            assert!(b.body == keep_b.body && b.size == keep_b.size && b.len == keep_b.len, "bystander slot modified");
+            assert!(b.body == keep_b.body && b.size == keep_b.size && b.len == keep_b.len && b.blen == keep_b.blen && b.bytes[0] == keep_b.bytes[0] && b.bytes[1] == keep_b.bytes[1] && b.bytes[2] == keep_b.bytes[2], "the slot right behind the record was modified");
         }
     });
     // read back through the real reader
@@ -578,10 +582,14 @@ fn val_write(is_new: bool, b_is_free: bool) {
     core::mem::forget(vf);
 }
 // (one harness per shape of slot B: the two halves run in parallel)
-rproof!(r_val_rewrite_bfree, val_write(false, true));
-rproof!(r_val_rewrite_bused, val_write(false, false));
-rproof!(r_val_new_bfree, val_write(true, true));
-rproof!(r_val_new_bused, val_write(true, false));
+rproof!(r_val_rewrite_bfree, val_write(false, true, false));
+rproof!(r_val_rewrite_bused, val_write(false, false, false));
+rproof!(r_val_new_bfree, val_write(true, true, false));
+rproof!(r_val_new_bused, val_write(true, false, false));
+// the same with a third, used slot C behind B (thorough tier)
+rproof!(r_val_rewrite_bfree_c, val_write(false, true, true));
+rproof!(r_val_rewrite_bused_c, val_write(false, false, true));
+rproof!(r_val_new_bfree_c, val_write(true, true, true));
 
 /// delete_piece: the slot goes onto the free list of its own size
 rproof!(r_val_delete, r_val_delete_body());
